@@ -13,7 +13,7 @@ import (
 
 func ratFrac(a, b int64) *big.Rat { return big.NewRat(a, b) }
 
-var asciiPool = runes("abcdXYZ0159!-_")
+var asciiPool = runes("abcdXYZ0159!-_abcdXYZ0159!-_ ,") // space and comma occasionally: typical join separators of naive cache keys
 var multiPool = runes("éßλ正💩́ÿЖ")
 var taintPool = runes("éßλ正💩ÿЖשд語ñø") // runes that occur in none of the library's diagnostics
 
@@ -149,7 +149,7 @@ func genCharCfgOnce(r *Rng, o charOpt) CharCfg {
 // word lists
 // ---------------------------------------------------------------------------
 
-var stemPool = []string{"ka", "lo", "mi", "zu", "polish", "apple", "reno", "éa", "naïve", "ßa", "λx", "две", "ñu", "two words", "re-do", "o'k"}
+var stemPool = []string{"ka", "lo", "mi", "zu", "polish", "apple", "reno", "éa", "naïve", "ßa", "λx", "две", "ñu", "two words", "re-do", "o'k", "#tag", "X-ray", "O'neil", "-x", "4 x", "_y", "9 lives"}
 var caselessPool = []string{"4", "正確", "42", "💩", "-", "語"}
 var taintStems = []string{"éa", "ñu", "λx", "две", "øre", "שלום", "語", "正確", "ÿß", "жук", "ñandú", "éßλ"}
 
@@ -291,4 +291,77 @@ func genWLCfg(r *Rng, o wlOpt) WLCfg {
 	c.Cap = pick(r, capSchemes)
 	c.Sep = genSep(r, o)
 	return c
+}
+
+// charSiblings returns recipes that differ from c in meaning but collide with it under
+// the cache keys a hurried memoisation would use: the same characters regrouped into
+// different required sets (same concatenation), sets split or merged at a space or a
+// comma (fmt.Sprint / strings.Join keys), characters moved across the boundary between
+// two custom strings.
+func charSiblings(r *Rng, c CharCfg) []CharCfg {
+	var out []CharCfg
+	clone := func() CharCfg {
+		n := c
+		n.RequireSets = append([]string{}, c.RequireSets...)
+		return n
+	}
+	cat := strings.Join(c.RequireSets, "")
+	rs := runes(cat)
+	if len(rs) >= 2 {
+		// one set with everything
+		n := clone()
+		n.RequireSets = []string{cat}
+		out = append(out, n)
+		// singletons
+		n = clone()
+		n.RequireSets = append([]string{}, rs...)
+		if len(n.RequireSets) <= 6 {
+			out = append(out, n)
+		}
+		// a random two-way split
+		k := 1 + r.Intn(len(rs)-1)
+		n = clone()
+		n.RequireSets = []string{strings.Join(rs[:k], ""), strings.Join(rs[k:], "")}
+		out = append(out, n)
+	}
+	for _, sep := range []string{" ", ","} {
+		// split a set at the separator
+		for i, set := range c.RequireSets {
+			if parts := strings.Split(set, sep); len(parts) > 1 {
+				n := clone()
+				var rs2 []string
+				rs2 = append(rs2, c.RequireSets[:i]...)
+				for _, p := range parts {
+					rs2 = append(rs2, p)
+				}
+				rs2 = append(rs2, c.RequireSets[i+1:]...)
+				n.RequireSets = rs2
+				out = append(out, n)
+			}
+		}
+		// merge two adjacent sets with the separator between them
+		if len(c.RequireSets) >= 2 {
+			i := r.Intn(len(c.RequireSets) - 1)
+			n := clone()
+			merged := c.RequireSets[i] + sep + c.RequireSets[i+1]
+			n.RequireSets = append(append(append([]string{}, c.RequireSets[:i]...), merged), c.RequireSets[i+2:]...)
+			out = append(out, n)
+		}
+	}
+	// move a character across the AllowChars / ExcludeChars boundary
+	if a := runes(c.AllowChars); len(a) > 0 {
+		n := clone()
+		n.AllowChars = strings.Join(a[:len(a)-1], "")
+		n.ExcludeChars = a[len(a)-1] + c.ExcludeChars
+		out = append(out, n)
+	}
+	if len(c.RequireSets) > 0 {
+		if f := runes(c.RequireSets[0]); len(f) > 0 {
+			n := clone()
+			n.AllowChars = c.AllowChars + f[0]
+			n.RequireSets[0] = strings.Join(f[1:], "")
+			out = append(out, n)
+		}
+	}
+	return out
 }
